@@ -65,8 +65,14 @@ def elems_of(case, f, classes):
 
 
 def run_impl(case):
-    d = tempfile.mkdtemp(prefix="cfi-c16-")
+    d0 = d = tempfile.mkdtemp(prefix="cfi-c16-")
     try:
+        if case.get("long_path"):
+            # a legal path longer than 255 characters in total (every component well below NAME_MAX):
+            # decks in deeply nested study directories
+            for i in range(6):
+                d = os.path.join(d, f"estudo_{i:02d}_caso_base_revisao_semanal_deck_de_entrada")
+            os.makedirs(d)
         F, classes = mk_file_class(case)
         enc, binary = case["encoding"], case["binary"]
         content = bytes(case["x"]) if binary else codec.dec_str(case["x"])
@@ -122,7 +128,7 @@ def run_impl(case):
     except Exception as e:
         return codec.enc_exc(e)
     finally:
-        shutil.rmtree(d, ignore_errors=True)
+        shutil.rmtree(d0, ignore_errors=True)
 
 
 def request(case, obs):
@@ -175,7 +181,7 @@ def random_case(rng):
     binary = fam != "section" and rng.random() < 0.3
     enc = rng.choice(ENCODINGS)
     # half of the writes go to a path that already holds a longer, earlier output
-    case = {"family": fam, "binary": binary, "encoding": enc, "dst_exists": rng.random() < 0.5}
+    case = {"family": fam, "binary": binary, "encoding": enc, "dst_exists": rng.random() < 0.5, "long_path": rng.random() < 0.2}
     if binary:
         if fam == "register":
             from props import c18
